@@ -153,4 +153,280 @@ theorem fmtCard_cardDbl (E : Ext) (key : Str) (x : UInt64) (hk : isCommentary ke
   have := hx.len
   simp only [if_true]; omega
 
+
+/-! ## the mandatory keywords -/
+
+/-- the formatter `encodeHeader` applies to the mandatory keywords -/
+def fmtStruct (c : Card) : Str := fmtCard { c with com := structComment c.key }
+
+theorem natStr_noQuote (n : Nat) : (natStr n).head? ≠ some '\'' := by
+  obtain ⟨c, r, hcr, hcd⟩ := natStr_head n
+  rw [hcr]; intro h; injection h with h; subst h; revert hcd; decide
+
+theorem fmtStruct_naxisN (i a : Nat) (hi : i ≤ 999) (ha : a < 10 ^ 20) :
+    fmtStruct ⟨"NAXIS".toList ++ natStr i, natStr a, []⟩
+      = valueCard ("NAXIS".toList ++ dec i) (dec a) ("length of data axis ".toList ++ dec i) := by
+  have hk := keyOK_naxis i hi
+  have hl := Codec.natStr_length i 3 (by omega) (by omega)
+  have hla := Codec.natStr_length a 20 (by omega) ha
+  unfold fmtStruct
+  simp only [structComment_naxisN]
+  rw [← natStr_eq_dec, ← natStr_eq_dec]
+  apply fmtCard_value _ _ _ hk.notCommentary hk.len (natStr_noQuote a)
+  have hne : ("length of data axis ".toList ++ natStr i = ([] : Str)) = False := by simp
+  simp only [hne, if_false, List.length_append]
+  have : "length of data axis ".toList.length = 20 := rfl
+  omega
+
+theorem fmtStruct_naxis (n : Nat) (hn : n ≤ 999) :
+    fmtStruct ⟨"NAXIS".toList, natStr n, []⟩ = valueCard "NAXIS".toList (dec n) "number of data axes".toList := by
+  have hl := Codec.natStr_length n 3 (by omega) (by omega)
+  unfold fmtStruct
+  rw [← natStr_eq_dec]
+  have hc : structComment "NAXIS".toList = "number of data axes".toList := by decide
+  simp only [hc]
+  apply fmtCard_value _ _ _ (by decide) (by decide) (natStr_noQuote n)
+  have hne : ("number of data axes".toList = ([] : Str)) = False := by decide
+  simp only [hne, if_false]
+  have : "number of data axes".toList.length = 19 := rfl
+  omega
+
+theorem map_axisCards (axes : List Nat) (hax : axes.length ≤ 999) (hlt : ∀ a ∈ axes, a < 10 ^ 20) :
+    (axisCards axes).map fmtStruct = (List.range axes.length).map fun j =>
+      valueCard ("NAXIS".toList ++ dec (j+1)) (dec (axes.getD j 0)) ("length of data axis ".toList ++ dec (j+1)) := by
+  unfold axisCards
+  rw [List.map_map]
+  apply List.map_congr_left
+  intro j hj
+  rw [List.mem_range] at hj
+  have ha : axes.getD j 0 < 10 ^ 20 := by
+    rw [List.getD_eq_getElem?_getD, List.getElem?_eq_getElem hj]
+    exact hlt _ (List.getElem_mem hj)
+  exact fmtStruct_naxisN (j+1) _ (by omega) ha
+
+/-- mandatory keywords of the primary unit -/
+theorem struct_primary (axes : List Nat) (cards : List Card) (d : List UInt32)
+    (hax : axes.length ≤ 999) (hlt : ∀ a ∈ axes, a < 10 ^ 20) :
+    (structCards true ⟨axes, cards, .f32 d⟩).map fmtStruct =
+      [ valueCard "SIMPLE".toList ['T'] "file does conform to FITS standard".toList,
+        valueCard "BITPIX".toList "-32".toList "number of bits per data pixel".toList,
+        valueCard "NAXIS".toList (dec axes.length) "number of data axes".toList ]
+      ++ (List.range axes.length).map (fun j =>
+          valueCard ("NAXIS".toList ++ dec (j+1)) (dec (axes.getD j 0)) ("length of data axis ".toList ++ dec (j+1))) := by
+  have h1 : fmtStruct ⟨"SIMPLE".toList, ['T'], []⟩
+      = valueCard "SIMPLE".toList ['T'] "file does conform to FITS standard".toList := by decide
+  have h2 : fmtStruct ⟨"BITPIX".toList, intStr (-32), []⟩
+      = valueCard "BITPIX".toList "-32".toList "number of bits per data pixel".toList := by decide
+  simp only [structCards, if_true, List.map_append, List.map_cons, List.map_nil, Pix.bitpix, h1, h2,
+    fmtStruct_naxis _ hax, map_axisCards axes hax hlt, List.append_nil]
+  rfl
+
+/-- mandatory keywords of a one-dimensional double image extension -/
+theorem struct_ext (n : Nat) (cards : List Card) (d : List UInt64) (hn : n < 10 ^ 20) :
+    (structCards false ⟨[n], cards, .f64 d⟩).map fmtStruct =
+      [ stringCardC "XTENSION".toList "IMAGE".toList "IMAGE extension".toList,
+        valueCard "BITPIX".toList "-64".toList "number of bits per data pixel".toList,
+        valueCard "NAXIS".toList ['1'] "number of data axes".toList,
+        valueCard "NAXIS1".toList (dec n) "length of data axis 1".toList,
+        valueCard "PCOUNT".toList ['0'] "required keyword; must = 0".toList,
+        valueCard "GCOUNT".toList ['1'] "required keyword; must = 1".toList ] := by
+  have h1 : fmtStruct ⟨"XTENSION".toList, "'IMAGE   '".toList, []⟩
+      = stringCardC "XTENSION".toList "IMAGE".toList "IMAGE extension".toList := by decide
+  have h2 : fmtStruct ⟨"BITPIX".toList, intStr (-64), []⟩
+      = valueCard "BITPIX".toList "-64".toList "number of bits per data pixel".toList := by decide
+  have h3 : fmtStruct ⟨"NAXIS".toList, natStr 1, []⟩
+      = valueCard "NAXIS".toList ['1'] "number of data axes".toList := by decide
+  have h4 := fmtStruct_naxisN 1 n (by omega) hn
+  have h5 : fmtStruct ⟨"PCOUNT".toList, ['0'], []⟩
+      = valueCard "PCOUNT".toList ['0'] "required keyword; must = 0".toList := by decide
+  have h6 : fmtStruct ⟨"GCOUNT".toList, ['1'], []⟩
+      = valueCard "GCOUNT".toList ['1'] "required keyword; must = 1".toList := by decide
+  have e1 : "NAXIS".toList ++ natStr 1 = "NAXIS1".toList := by decide
+  have e2 : "NAXIS".toList ++ dec 1 = "NAXIS1".toList := by decide
+  have e3 : "length of data axis ".toList ++ dec 1 = "length of data axis 1".toList := by decide
+  rw [e1, e2, e3] at h4
+  simp only [structCards, Bool.false_eq_true, if_false, List.map_append, List.map_cons, List.map_nil, Pix.bitpix,
+    axisCards, List.length_cons, List.length_nil, List.range, List.range.loop, List.getD_cons_zero,
+    h1, h2, h3, e1, h4, h5, h6]
+  rfl
+
+
+/-! ## the keywords `write_fits_core` writes into the primary header -/
+
+set_option maxRecDepth 4000 in
+theorem map_primaryBoiler : primaryBoiler.map fmtCard =
+    [ valueCard "EXTEND".toList ['T'] "FITS dataset may contain extensions".toList,
+      commentCard "  FITS (Flexible Image Transport System) format is defined in 'Astronomy".toList,
+      commentCard "  and Astrophysics', volume 376, page 359; bibcode: 2001A&A...376..359H".toList ] := by
+  have h1 : fmtCard ⟨"EXTEND".toList, ['T'], "FITS dataset may contain extensions".toList⟩
+      = valueCard "EXTEND".toList ['T'] "FITS dataset may contain extensions".toList := by decide
+  have h2 : fmtCard ⟨"COMMENT".toList, [], "  FITS (Flexible Image Transport System) format is defined in 'Astronomy".toList⟩
+      = commentCard "  FITS (Flexible Image Transport System) format is defined in 'Astronomy".toList := by decide
+  have h3 : fmtCard ⟨"COMMENT".toList, [], "  and Astrophysics', volume 376, page 359; bibcode: 2001A&A...376..359H".toList⟩
+      = commentCard "  and Astrophysics', volume 376, page 359; bibcode: 2001A&A...376..359H".toList := by decide
+  simp only [primaryBoiler, List.map_cons, List.map_nil, h1, h2, h3]
+
+theorem fmtCard_typeCard : fmtCard typeCard = stringCard "TYPE".toList "Spline Coefficient Table".toList :=
+  fmtCard_cardStr _ _ (by decide) (by decide) (by decide)
+
+theorem getD_mem_lt {l : List Nat} {i b : Nat} (hi : i < l.length) (h : ∀ o ∈ l, o < b) : l.getD i 0 < b := by
+  rw [List.getD_eq_getElem?_getD, List.getElem?_eq_getElem hi]
+  exact h _ (List.getElem_mem hi)
+
+theorem map_orderCards (t : Table) (hnd : t.ndim ≤ 1000) (hlt : ∀ o ∈ t.order, o < 2147483648) :
+    (orderCards t).map fmtCard = (List.range t.ndim).map fun i =>
+      valueCard ("ORDER".toList ++ dec i) (dec (t.order.getD i 0)) "B-Spline Order".toList := by
+  unfold orderCards
+  rw [List.map_map]
+  apply List.map_congr_left
+  intro i hi
+  rw [List.mem_range] at hi
+  obtain ⟨hk, _, _⟩ := keyN_order_ok i (by omega)
+  show fmtCard (cardInt (keyN "ORDER" i) (t.order.getD i 0) "B-Spline Order".toList) = _
+  rw [fmtCard_cardInt _ _ hk.notCommentary hk.len (getD_mem_lt hi hlt), keyN_eq]
+
+theorem map_periodCards (E : Ext) (t : Table) (h : Encodable E t) :
+    (periodCards E t).map fmtCard = periodRecords E t := by
+  unfold periodCards periodRecords
+  cases hp : t.periods with
+  | none => rfl
+  | some p =>
+    simp only
+    rw [List.map_map]
+    apply List.map_congr_left
+    intro i hi
+    rw [List.mem_range] at hi
+    have hnd : t.ndim ≤ 100 := h.periods_dim (by rw [hp]; exact fun e => nomatch e)
+    have hpl := h.periods_len p hp
+    have hip : i < p.length := by omega
+    obtain ⟨hk, _, _⟩ := keyN_period_ok i (by omega)
+    have hx : NumText (E.fmtD (p.getD i 0)) := by
+      apply h.periods_text p hp
+      rw [List.getD_eq_getElem?_getD, List.getElem?_eq_getElem hip]
+      exact List.getElem_mem hip
+    show fmtCard (cardDbl E (keyN "PERIOD" i) (p.getD i 0)) = _
+    rw [fmtCard_cardDbl E _ _ hk.notCommentary hk.len hx, keyN_eq]
+
+theorem map_auxCards (E : Ext) (t : Table) (h : Encodable E t) :
+    (auxCards t).map fmtCard = t.aux.map fun kv => stringCard kv.1 kv.2 := by
+  unfold auxCards
+  rw [List.map_map]
+  apply List.map_congr_left
+  intro kv hkv
+  obtain ⟨hk, _, _, _, hl⟩ := h.aux_ok kv hkv
+  exact fmtCard_cardStr _ _ hk.notCommentary hk.len hl
+
+theorem wAxes_getD (t : Table) (j : Nat) (hj : j < t.ndim) : (wAxes t).getD j 0 = t.naxes.getD (t.ndim - 1 - j) 0 := by
+  unfold wAxes
+  rw [List.getD_eq_getElem?_getD, List.getElem?_map, List.getElem?_range hj]
+  simp only [Option.map_some, Option.getD_some]
+  congr 1; omega
+
+theorem wAxes_length (t : Table) : (wAxes t).length = t.ndim := by simp [wAxes]
+
+/-- the primary header, record by record -/
+theorem primary_records (E : Ext) (t : Table) (h : Encodable E t) (hlt : ∀ o ∈ t.order, o < 2147483648) :
+    (structCards true (primHdu E false t)).map (fun c => fmtCard { c with com := structComment c.key })
+      ++ (primHdu E false t).cards.map fmtCard = primaryHeader E t := by
+  have hax : wAxes t = t.naxes.reverse := wAxes_eq t h.naxes_len
+  have hl : (wAxes t).length ≤ 999 := by rw [wAxes_length]; exact h.ndim_le
+  have hlt' : ∀ a ∈ wAxes t, a < 10 ^ 20 := by
+    intro a ha; rw [hax] at ha; exact h.naxes_lt a (List.mem_reverse.mp ha)
+  have hnax : (List.range (wAxes t).length).map (fun j =>
+      valueCard ("NAXIS".toList ++ dec (j+1)) (dec ((wAxes t).getD j 0)) ("length of data axis ".toList ++ dec (j+1)))
+      = (List.range t.ndim).map (fun j =>
+      valueCard ("NAXIS".toList ++ dec (j+1)) (dec (t.naxes.getD (t.ndim - 1 - j) 0))
+        ("length of data axis ".toList ++ dec (j+1))) := by
+    rw [wAxes_length]
+    apply List.map_congr_left
+    intro j hj
+    rw [wAxes_getD t j (List.mem_range.mp hj)]
+  show (structCards true ⟨wAxes t, _, .f32 _⟩).map fmtStruct ++ _ = _
+  rw [struct_primary (wAxes t) _ _ hl hlt', hnax, wAxes_length]
+  show _ ++ (primaryBoiler ++ [typeCard] ++ ordCards false t ++ periodCards E t ++ auxCards t).map fmtCard = _
+  simp only [List.map_append, map_primaryBoiler, List.map_cons, List.map_nil, fmtCard_typeCard, ordCards,
+    Bool.false_eq_true, if_false, map_orderCards t (by have := h.ndim_le; omega) hlt, map_periodCards E t h,
+    map_auxCards E t h]
+  simp only [primaryHeader, List.append_assoc, List.cons_append, List.nil_append]
+
+/-- **unit 0**: the primary header and the coefficient image -/
+theorem primary_unit (E : Ext) (t : Table) (h : Encodable E t) (hlt : ∀ o ∈ t.order, o < 2147483648)
+    (hc : t.coef.length = prod t.naxes) :
+    encodeHdu true (primHdu E false t) = primaryUnit E t := by
+  unfold encodeHdu primaryUnit
+  rw [encodeHeader_layout true _ _ (primary_records E t h hlt)]
+  show _ ++ encodeData (.f32 (t.coef.take (prod (wAxes t)))) = _
+  rw [wAxes_eq t h.naxes_len, prod_reverse, List.take_of_length_le (by omega), encodeData_f32]
+  rfl
+
+
+/-! ## the extension units and the whole file -/
+
+theorem ext_unit (n : Nat) (d : List UInt64) (nm : Str) (hn : n < 10 ^ 20) (hl : storedLen nm ≤ 68) :
+    encodeHdu false (extHdu [n] (.f64 d) nm) = headerUnit (extensionHeader nm n) ++ dataUnit (f64Data d) := by
+  unfold encodeHdu
+  have hr : (structCards false (extHdu [n] (.f64 d) nm)).map (fun c => fmtCard { c with com := structComment c.key })
+      ++ (extHdu [n] (.f64 d) nm).cards.map fmtCard = extensionHeader nm n := by
+    show (structCards false ⟨[n], _, .f64 d⟩).map fmtStruct ++ [cardStr "EXTNAME".toList nm []].map fmtCard = _
+    rw [struct_ext n _ d hn]
+    simp only [List.map_cons, List.map_nil, fmtCard_cardStr "EXTNAME".toList nm (by decide) (by decide) hl]
+    rfl
+  rw [encodeHeader_layout false _ _ hr]
+  show _ ++ encodeData (.f64 d) = _
+  rw [encodeData_f64]
+
+theorem knot_unit (E : Ext) (t : Table) (h : Encodable E t) (i : Nat) (hi : i < t.ndim) :
+    encodeHdu false (knotHdu t i) = knotUnit t i := by
+  rw [knotHdu_eq]
+  obtain ⟨_, h2, h3⟩ := keyN_knots_text i (by have := h.ndim_le; omega)
+  have hk : (t.knots.getD i []).length < 10 ^ 20 := by
+    rw [List.getD_eq_getElem?_getD]
+    cases hk : t.knots[i]? with
+    | none => simp
+    | some k => exact h.knots_lt k (List.mem_of_getElem? hk)
+  rw [ext_unit _ _ _ hk (by rw [storedLen_plain _ h2]; exact h3), keyN_eq]
+  rfl
+
+theorem extents_units (E : Ext) (t : Table) (h : Encodable E t)
+    (hel : ∀ e, t.extents = some e → e.length = 2 * t.ndim) :
+    (extentsHdus t).flatMap (encodeHdu false) = extentsUnits t := by
+  unfold extentsHdus extentsUnits
+  cases he : t.extents with
+  | none => rfl
+  | some e =>
+    simp only [List.flatMap_cons, List.flatMap_nil, List.append_nil]
+    rw [updateKey_createImg, List.take_of_length_le (by rw [hel e he]; exact Nat.le_refl _)]
+    have hnd := h.ndim_le
+    have h20 : (10 : Nat) ^ 20 = 100000000000000000000 := by decide
+    exact ext_unit _ _ _ (by rw [h20]; omega) (by decide)
+
+theorem flatMap_congr' {α β} (l : List α) (f g : α → List β) (h : ∀ a ∈ l, f a = g a) :
+    l.flatMap f = l.flatMap g := by
+  induction l with
+  | nil => rfl
+  | cons a r ih =>
+    rw [List.flatMap_cons, List.flatMap_cons, h a (by simp), ih (fun b hb => h b (by simp [hb]))]
+
+theorem encodeAux_false (l : List Hdu) : encodeAux false l = l.flatMap (encodeHdu false) := by
+  induction l with
+  | nil => rfl
+  | cons a r ih => rw [encodeAux, ih, List.flatMap_cons]
+
+/-- **The encoder meets the documented layout**: for every table in the domain of the writer model and of the byte
+    codec, the bytes of the file are the bytes the independent description lists. -/
+theorem encode_writeCore_eq_layout (E : Ext) (t : Table) (h : Encodable E t)
+    (hlt : ∀ o ∈ t.order, o < 2147483648) (hc : t.coef.length = prod t.naxes)
+    (hel : ∀ e, t.extents = some e → e.length = 2 * t.ndim) :
+    encodeFits (writeCore E t) = layoutBytes E t := by
+  have hk : ((List.range t.ndim).map (knotHdu t)).flatMap (encodeHdu false)
+      = (List.range t.ndim).flatMap (knotUnit t) := by
+    rw [List.flatMap_map]
+    apply flatMap_congr'
+    intro i hi
+    exact knot_unit E t h i (List.mem_range.mp hi)
+  have h0 : encodeFits (writeCore E t)
+      = encodeHdu true (primHdu E false t) ++ encodeAux false (restHdus t) := rfl
+  rw [h0, encodeAux_false, restHdus, List.flatMap_append, hk, primary_unit E t h hlt hc, extents_units E t h hel,
+    layoutBytes, List.append_assoc]
+
 end PsV.Fits.Layout
